@@ -11,7 +11,7 @@ open Group
 inductive Base (s : State) (g : Nat) : Group → Prop where
   | loaded {st : Group} : lookup s.groups g = some st → Base s g st
   | restored {p : PGroup} : lookup s.groups g = none → lookup s.persisted g = some p → Base s g (restore fixed p s.clock)
-  | fresh : lookup s.groups g = none → Base s g newGroup
+  | fresh : lookup s.groups g = none → lookup s.persisted g = none → Base s g newGroup
 
 /-- what one step can do to a group -/
 inductive Derived : Group → Group → Prop where
@@ -150,6 +150,58 @@ theorem cleanup_entry (s : State) (hs : SortedKeys s.groups) (g' : Nat) (stx : G
     apply hnk
     exact List.mem_map.mpr ⟨(g', stx), lookup_some_mem hl, rfl⟩
 
+theorem lookup_none_of_lt {α : Type} {l : List (Nat × α)} {k : Nat} (h : ∀ e ∈ l, k < e.1) : lookup l k = none := by
+  induction l with
+  | nil => rfl
+  | cons e t ih =>
+    obtain ⟨k0, v0⟩ := e
+    have : ¬ k0 = k := by have := h (k0, v0) (by simp); simp at this; omega
+    simp only [lookup, this, if_false]
+    exact ih (fun e he => h e (List.mem_cons_of_mem _ he))
+
+/-- the cleanup pass as a map over the group table: every loaded group gets its `cleanupOutcome` -/
+theorem cleanup_lookup (s : State) (hs : SortedKeys s.groups) (g' : Nat) :
+    lookup (cleanup fixed s).groups g' =
+      match lookup s.groups g' with
+      | some st0 => (cleanupOutcome st0 s.clock).group?
+      | none => none := by
+  unfold cleanup
+  have key : ∀ (l : List (Nat × Group)) (acc : State), SortedKeys l → acc.clock = s.clock →
+      (∀ e ∈ l, lookup acc.groups e.1 = some e.2) →
+      lookup (l.foldl (fun acc e => cleanupGroup fixed acc e.1 e.2) acc).groups g' =
+        match lookup l g' with
+        | some st0 => (cleanupOutcome st0 s.clock).group?
+        | none => lookup acc.groups g' := by
+    intro l
+    induction l with
+    | nil => intro acc _ _ _; rfl
+    | cons e t ih =>
+      intro acc hsl hclk hacc
+      simp only [List.foldl_cons]
+      have hst : SortedKeys t := by
+        unfold SortedKeys keys at hsl ⊢; simp only [List.map_cons, List.pairwise_cons] at hsl; exact hsl.2
+      have hlt : ∀ e' ∈ t, e.1 < e'.1 := by
+        intro e' he'
+        unfold SortedKeys keys at hsl; simp only [List.map_cons, List.pairwise_cons] at hsl
+        exact hsl.1 _ (List.mem_map.mpr ⟨e', he', rfl⟩)
+      have hacc' : ∀ e' ∈ t, lookup (cleanupGroup fixed acc e.1 e.2).groups e'.1 = some e'.2 := by
+        intro e' he'
+        rw [cleanupGroup_other acc e.1 e'.1 e.2 (by have := hlt e' he'; omega)]
+        exact hacc e' (List.mem_cons_of_mem _ he')
+      rw [ih (cleanupGroup fixed acc e.1 e.2) hst (by rw [cleanupGroup_clock]; exact hclk) hacc']
+      obtain ⟨k0, v0⟩ := e
+      by_cases hk : k0 = g'
+      · subst hk
+        rw [lookup_none_of_lt hlt]
+        simp only [lookup, if_true]
+        rw [cleanupGroup_lookup, hclk]
+      · simp only [lookup, hk, if_false]
+        cases hq : lookup t g' with
+        | some st0 => rfl
+        | none => simp only; exact cleanupGroup_other acc k0 g' v0 hk
+  rw [key s.groups s hs rfl (fun e he => lookup_of_mem_sorted hs he)]
+  cases lookup s.groups g' <;> rfl
+
 /-- **every entry of the group table after a step comes from the entry before it** -/
 theorem step_groups (s : State) (hs : SortedKeys s.groups) (op : Op) (g' : Nat) (stx : Group)
     (h : lookup (step s op).1.groups g' = some stx) : ∃ st0, Base s g' st0 ∧ Derived st0 stx := by
@@ -169,13 +221,13 @@ theorem step_groups (s : State) (hs : SortedKeys s.groups) (op : Op) (g' : Nat) 
       · rename_i s2 st2 hl; cases he
         exact entry_after_set hl (base_of_load hl) (.join st0 mid se rb pt pr nk s1.clock) h
       · rename_i s2 hl; cases he
-        have hn : lookup s.groups g = none := by
-          rcases loadGroup_cases fixed s g with ⟨st0, hs', h'⟩ | ⟨_, _, h'⟩ | ⟨hn, _, _, h'⟩ | ⟨p, hn, _, hp, h'⟩ <;> rw [h'] at hl
+        have hn : lookup s.groups g = none ∧ lookup s.persisted g = none := by
+          rcases loadGroup_cases fixed s g with ⟨st0, hs', h'⟩ | ⟨_, _, h'⟩ | ⟨hn, _, hp, h'⟩ | ⟨p, hn, _, hp, h'⟩ <;> rw [h'] at hl
           · cases hl
           · cases hl
-          · exact hn
+          · exact ⟨hn, hp⟩
           · cases hl
-        exact entry_after_set hl (.fresh hn) (.join newGroup mid se rb pt pr nk s1.clock) h
+        exact entry_after_set hl (.fresh hn.1 hn.2) (.join newGroup mid se rb pt pr nk s1.clock) h
   | sync g mid gen =>
     simp only [step, stepV] at h
     unfold sync at h
@@ -256,5 +308,175 @@ theorem step_groups (s : State) (hs : SortedKeys s.groups) (op : Op) (g' : Nat) 
     · rename_i s1 o hl; exact entry_after_load hl h
   | fail k => exact ⟨stx, .loaded h, .refl _⟩
   | setMeta tm => exact ⟨stx, .loaded h, .refl _⟩
+
+
+/-! ### the group table keeps strictly increasing keys -/
+
+theorem sorted_load {s s1 : State} {g : Nat} {o : Option Group} (hs : SortedKeys s.groups)
+    (hl : loadGroup fixed s g = some (s1, o)) : SortedKeys s1.groups := by
+  rcases loadGroup_cases fixed s g with ⟨st0, _, h'⟩ | ⟨_, _, h'⟩ | ⟨_, _, _, h'⟩ | ⟨p, _, _, _, h'⟩ <;> rw [h'] at hl
+  · cases hl; exact hs
+  · cases hl
+  · cases hl; exact hs
+  · cases hl; exact sorted_insert hs _ _
+
+theorem sorted_cleanupGroup {s : State} (hs : SortedKeys s.groups) (g : Nat) (st : Group) :
+    SortedKeys (cleanupGroup fixed s g st).groups := by
+  unfold cleanupGroup
+  split
+  · rw [persist_groups]; exact sorted_erase hs _
+  · rw [persist_groups]; exact sorted_insert hs _ _
+  · exact sorted_insert hs _ _
+
+theorem sorted_step {s : State} (hs : SortedKeys s.groups) (op : Op) : SortedKeys (step s op).1.groups := by
+  cases op with
+  | join g mid se rb pt pr nk =>
+    simp only [step, stepV]
+    unfold join
+    cases he : ensureGroup fixed s g with
+    | none => exact hs
+    | some x =>
+      obtain ⟨s1, st0⟩ := x
+      simp only [persist_groups, setGroup]
+      have h1 : SortedKeys s1.groups := by
+        unfold ensureGroup at he
+        split at he
+        · cases he
+        · rename_i s2 st2 hl; cases he; exact sorted_load hs hl
+        · rename_i s2 hl; cases he; exact sorted_load hs hl
+      exact sorted_insert h1 _ _
+  | sync g mid gen =>
+    simp only [step, stepV]
+    unfold sync
+    split
+    · exact hs
+    · rename_i s1 hl; exact sorted_load hs hl
+    · rename_i s1 st hl
+      have h1 := sorted_load hs hl
+      have hfin : ∀ (s2 : State) (st' : Group), SortedKeys s2.groups → SortedKeys (syncFinish fixed s2 g st' mid).1.groups := by
+        intro s2 st' h2
+        unfold syncFinish
+        split
+        · exact sorted_insert h2 _ _
+        · rw [persist_groups]; exact sorted_insert h2 _ _
+      split
+      · exact h1
+      · split
+        · exact h1
+        · split
+          · exact h1
+          · split
+            · split
+              · exact h1
+              · exact hfin _ _ h1
+            · exact hfin _ _ h1
+  | heartbeat g mid gen =>
+    simp only [step, stepV]
+    unfold heartbeat
+    split
+    · exact hs
+    · rename_i s1 hl; exact sorted_load hs hl
+    · rename_i s1 st hl
+      have h1 := sorted_load hs hl
+      split
+      · exact h1
+      · split
+        · exact h1
+        · split
+          · exact h1
+          · rw [persist_groups]; exact sorted_insert h1 _ _
+  | leave g mid =>
+    simp only [step, stepV]
+    unfold leave
+    split
+    · exact hs
+    · rename_i s1 hl; exact sorted_load hs hl
+    · rename_i s1 st hl
+      have h1 := sorted_load hs hl
+      split
+      · exact h1
+      · split
+        · rw [persist_groups]; exact sorted_erase h1 _
+        · rw [persist_groups]; exact sorted_insert h1 _ _
+  | commit g mid gen parts =>
+    simp only [step, stepV]
+    unfold commit
+    split
+    · exact hs
+    · rename_i s1 st hl
+      split
+      · rw [commitWrites_groups]; exact sorted_load hs hl
+      · exact sorted_load hs hl
+  | fetch g parts => simp only [step, stepV, fetch, fetchRows_groups]; exact hs
+  | tick d => exact hs
+  | cleanup =>
+    simp only [step, stepV]
+    unfold cleanup
+    have key : ∀ (l : List (Nat × Group)) (acc : State), SortedKeys acc.groups →
+        SortedKeys (l.foldl (fun acc e => cleanupGroup fixed acc e.1 e.2) acc).groups := by
+      intro l
+      induction l with
+      | nil => intro acc h; exact h
+      | cons e t ih => intro acc h; exact ih _ (sorted_cleanupGroup h e.1 e.2)
+    exact key _ _ hs
+  | failover => exact sorted_nil
+  | load g =>
+    simp only [step, stepV]
+    split
+    · exact hs
+    · rename_i s1 o hl; exact sorted_load hs hl
+  | fail k => exact hs
+  | setMeta tm => exact hs
+
+/-- in every reachable state the group table is a canonical map -/
+theorem sorted_run (ops : List Op) : SortedKeys (run init ops).groups := by
+  have : ∀ (s : State), SortedKeys s.groups → SortedKeys (run s ops).groups := by
+    induction ops with
+    | nil => intro s h; exact h
+    | cons op ops ih => intro s h; exact ih _ (sorted_step h op)
+  exact this init sorted_nil
+
+/-! ### generations only grow -/
+
+theorem joinCore_gen_ge (st : Group) (mid : Nat) (se rb : Int) (pt : Nat) (pr : Option (Nat × List Nat)) (nk now : Nat) :
+    st.gen ≤ (joinCore fixed st mid se rb pt pr nk now).1.gen := by
+  unfold joinCore
+  simp only
+  rw [(joinFinish_spec _ _).2.1]
+  obtain ⟨m', _, hgen, _⟩ := joinMember_spec st mid se pt pr nk now
+  generalize joinMember st mid se pt pr nk now = jm at hgen
+  rcases joinPhase_cases fixed jm.1 jm.2.1 jm.2.2.1 jm.2.2.2 (topicsOfProto pr) (timeoutOf rb) now with
+    ⟨st', he, _, hg', _⟩ | ⟨he, _⟩ | ⟨he, _⟩
+  · rw [he]; have := startRebalance_gen_ge st' (timeoutOf rb) now; omega
+  · rw [he]; simp [hgen]
+  · rw [he]; omega
+
+theorem derived_gen_le {st st' : Group} (h : Derived st st') : st.gen ≤ st'.gen := by
+  cases h with
+  | refl => exact Nat.le_refl _
+  | join mid se rb pt pr nk now => exact joinCore_gen_ge st mid se rb pt pr nk now
+  | assign s hph => rw [(leaderAssign_spec s st hph).2.2.1]; exact Nat.le_refl _
+  | heartbeat mid m now hm => exact Nat.le_refl _
+  | leave mid now =>
+    unfold leaveCore
+    simp only
+    split
+    · have := startRebalance_gen_ge ({ st with members := erase st.members mid, asg := erase st.asg mid, leader := 0 } : Group) 0 now
+      exact this
+    · have := startRebalance_gen_ge ({ st with members := erase st.members mid, asg := erase st.asg mid } : Group) 0 now
+      exact this
+  | cleanup =>
+    rename_i nw ho
+    cases hc : cleanupOutcome st nw with
+    | gone => rw [hc] at ho; simp [CleanupOutcome.group?] at ho
+    | kept st2 =>
+      rw [hc] at ho; simp only [CleanupOutcome.group?, Option.some.injEq] at ho
+      subst ho; rw [cleanupOutcome_kept hc]; exact Nat.le_refl _
+    | rebalanced st2 =>
+      rw [hc] at ho; simp only [CleanupOutcome.group?, Option.some.injEq] at ho
+      subst ho
+      obtain ⟨st3, _, rfl, ⟨hg3, _⟩, _⟩ := cleanupOutcome_rebalanced hc
+      have h1 := startRebalance_gen_ge st3 0 nw
+      omega
 
 end KafVerif.Group
